@@ -191,3 +191,73 @@ Proof.
   vm_compute. repeat split; reflexivity.
 Qed.
 Print Assumptions C31_descending_fork_refuted.
+
+(* ---- closer: GetAllBlocksAtNumber characterised exactly (ProofsAllAt.v) *)
+From C31 Require Import ProofsAllAt.
+
+(* BlockState.GetAllBlocksAtNumber = BlockTree.GetHashesAtNumber: empty below the tree root and
+   above the best block's number, otherwise a depth-first search from the root.  On every
+   well-formed store, for every number e:
+   - a hash is listed iff it is a stored block with number e and e <= the best number
+     (C31_all_at_number_complete is the <- half);
+   - no hash is listed twice, and for e <= best the list is as long as the set of stored blocks with
+     number e;
+   - for e > best the list is EMPTY whatever is stored: a fork that is not the best chain (the fork
+     choice prefers primary-slot blocks to height) can hold blocks above the best number and
+     GetHashesAtNumber does not return them (C31_all_at_number_above_best_example).  The serving
+     code only asks for e = min(best, ...) so the criterion below is unaffected. *)
+Theorem C31_all_at_number_exact : forall s bb,
+  indexed s -> wf_store_b s = true -> find_blk s (s_best s) = Some bb ->
+  forall e,
+     (forall x, In x (all_at_number s e)
+        <-> exists bx, find_blk s x = Some bx /\ b_number bx = e /\ e <= b_number bb)
+  /\ NoDup (all_at_number s e)
+  /\ (e <= b_number bb ->
+        length (all_at_number s e) = length (filter (fun b => b_number b =? e) (s_blocks s)))
+  /\ (b_number bb < e -> all_at_number s e = []).
+Proof. exact all_at_number_exact_b. Qed.
+Print Assumptions C31_all_at_number_exact.
+
+(* Requests BY HASH, both directions, stated over the stored blocks only (C31_by_hash_served_iff
+   with the candidates of checkOrGetDescendantHash replaced by what they are): ascending from h is
+   served iff h is stored and some STORED block with number e = min(best, number(h)+max-1) is h or a
+   descendant of h; descending from h iff h is stored and the best chain's block with number e' is h
+   or h's ancestor at that number. *)
+Theorem C31_by_hash_served_iff_stored : forall s req h seen bb,
+  indexed s -> wf_store_b s = true -> find_blk s (s_best s) = Some bb ->
+  r_from req = FromHash h -> r_fields req <> 0 -> seen <= max_same ->
+  (r_dir req = dir_asc ->
+     ((exists resp, serve s req seen = Ok resp)
+      <-> exists b d bd, find_blk s h = Some b /\ find_blk s d = Some bd
+            /\ b_number bd = asc_end (b_number bb) (b_number b) (resp_max req)
+            /\ (h = d \/ anc_at s d (b_number b) = Some h)))
+  /\ (r_dir req = dir_desc ->
+     ((exists resp, serve s req seen = Ok resp)
+      <-> exists b eh, find_blk s h = Some b
+            /\ anc_at s (s_best s) (desc_end true (b_number b) (resp_max req)) = Some eh
+            /\ (eh = h \/ anc_at s h (desc_end true (b_number b) (resp_max req)) = Some eh))).
+Proof. exact by_hash_served_iff_stored. Qed.
+Print Assumptions C31_by_hash_served_iff_stored.
+
+(* non-vacuity on the forked store ex_store (best chain 1-2-3-4, fork 5-6 on block 1): both
+   branches are listed, in the order of the depth-first search; a request ascending from the fork
+   block 5 is served along the fork (block 6 is the stored block with number e = 3 below 5), one
+   from 5 with max 3 is refused (e = 4: the only stored block with number 4 is not below 5) *)
+Example C31_all_at_number_fork_example :
+  all_at_number ex_store 0 = [0] /\ all_at_number ex_store 1 = [1]
+  /\ all_at_number ex_store 2 = [2; 5] /\ all_at_number ex_store 3 = [3; 6]
+  /\ all_at_number ex_store 4 = [4] /\ all_at_number ex_store 5 = []
+  /\ serve ex_store (mkreq 1 (FromHash 5) 0 (Some 2)) 0 = Ok [mkbd 5 1; mkbd 6 1]
+  /\ serve ex_store (mkreq 1 (FromHash 5) 0 (Some 3)) 0 = Err E_NODESC.
+Proof. vm_compute. repeat split; reflexivity. Qed.
+
+(* the bound e <= best is needed: best block 2 (number 2), the other fork 3-4-5 reaches number 3;
+   block 5 is stored with number 3 and is not listed *)
+Definition ex_store3 : store :=
+  mkstore [ mkblk 0 99 0 3; mkblk 1 0 1 3; mkblk 2 1 2 3; mkblk 3 0 1 3; mkblk 4 3 2 3;
+            mkblk 5 4 3 3 ] 2.
+
+Example C31_all_at_number_above_best_example :
+  wf_store_b ex_store3 = true /\ find_blk ex_store3 5 = Some (mkblk 5 4 3 3)
+  /\ all_at_number ex_store3 3 = [] /\ all_at_number ex_store3 2 = [2; 4].
+Proof. vm_compute. repeat split; reflexivity. Qed.
